@@ -1696,6 +1696,13 @@ static size_t ZSTD_maxNbSeq(size_t blockSize, unsigned minMatch, int useSequence
     return blockSize / divider;
 }
 
+static ldmParams_t ZSTD_resolveLdmParams(const ldmParams_t* ldmParams, const ZSTD_compressionParameters* cParams)
+{
+    ldmParams_t resolved = *ldmParams;
+    if (resolved.enableLdm == ZSTD_ps_enable) ZSTD_ldm_adjustParameters(&resolved, cParams);
+    return resolved;
+}
+
 static size_t ZSTD_estimateCCtxSize_usingCCtxParams_internal(
         const ZSTD_compressionParameters* cParams,
         const ldmParams_t* ldmParams,
@@ -1717,9 +1724,12 @@ static size_t ZSTD_estimateCCtxSize_usingCCtxParams_internal(
     size_t const blockStateSpace = 2 * ZSTD_cwksp_alloc_size(sizeof(ZSTD_compressedBlockState_t));
     size_t const matchStateSize = ZSTD_sizeof_matchState(cParams, useRowMatchFinder, /* enableDedicatedDictSearch */ 0, /* forCCtx */ 1);
 
-    size_t const ldmSpace = ZSTD_ldm_getTableSize(*ldmParams);
-    size_t const maxNbLdmSeq = ZSTD_ldm_getMaxNbSeq(*ldmParams, blockSize);
-    size_t const ldmSeqSpace = ldmParams->enableLdm == ZSTD_ps_enable ?
+    /* LDM parameters left at 0 (= default) are resolved like ZSTD_resetCCtx_internal() does,
+     * otherwise minMatchLength == 0 divides by zero below */
+    ldmParams_t const resolvedLdmParams = ZSTD_resolveLdmParams(ldmParams, cParams);
+    size_t const ldmSpace = ZSTD_ldm_getTableSize(resolvedLdmParams);
+    size_t const maxNbLdmSeq = ZSTD_ldm_getMaxNbSeq(resolvedLdmParams, blockSize);
+    size_t const ldmSeqSpace = resolvedLdmParams.enableLdm == ZSTD_ps_enable ?
         ZSTD_cwksp_aligned64_alloc_size(maxNbLdmSeq * sizeof(rawSeq)) : 0;
 
 
